@@ -148,7 +148,7 @@ def load_corpus(prop):
     return out
 
 
-def run_core(chk, prop, profiles, prop_files, quick_n=350, thorough_n=4000):
+def run_core(chk, prop, profiles, prop_files, quick_n=350, thorough_n=9000):
     """profiles: list of (profile_name, weight)."""
     vlib.setup_impl()
     logging.disable(logging.CRITICAL)
@@ -185,7 +185,10 @@ def run_core(chk, prop, profiles, prop_files, quick_n=350, thorough_n=4000):
         n = max(1, int(total * w / wsum))
         rng = vlib.Rng(chk.seed, f"{prop}-{profile}")
         for _ in range(n):
-            case, obs, trace = core_gen.generate_and_run(rng, profile)
+            mco = None
+            if chk.tier == "thorough":
+                mco = {"settled": 25, "restore": 30}.get(profile, 60)
+            case, obs, trace = core_gen.generate_and_run(rng, profile, mco)
             pairs.append((case, obs))
             run_monitors(chk, prop, case, trace, profile)
             chk.count(1, nontrivial_key=json.dumps(case["ops"]) if _nontrivial(prop, case, trace) else None)
